@@ -118,6 +118,29 @@ func shortFunc(f string) string {
 
 // ---------------------------------------------------------------- run
 
+// MaxThreads is the maximal number of threads of a run.
+const MaxThreads = 6
+
+type tlKey struct {
+	thread int
+	site   int32
+	seq    int
+}
+
+var (
+	tlIdx   = map[tlKey]int32{}
+	tlNames = []tlKey{{}}
+)
+
+// TLabelName renders a per-thread object label.
+func TLabelName(id int32) string {
+	if id <= 0 || int(id) >= len(tlNames) {
+		return "-"
+	}
+	k := tlNames[id]
+	return fmt.Sprintf("thread %d: object #%d first used at %s", k.thread, k.seq, SiteName(k.site))
+}
+
 // Thread states.
 const (
 	stParked = iota
@@ -168,6 +191,7 @@ type Point struct {
 	Obj        int32      // object id (-1 none)
 	Site       int32
 	CurOps     int32 // per-thread op index of the running thread
+	TLabel     int32 // per-thread label of the object (see ObjInfo.TL), 0 if none
 	Label      string
 }
 
@@ -197,6 +221,11 @@ type ObjInfo struct {
 	Seq     int   // sequence among the objects first used at that site
 	Threads uint16
 	Sites   map[int32]struct{} // all operation sites (profile mode)
+	// TL is the per-thread label of the object: (thread, site of that thread's first operation on
+	// the object, sequence number among the objects that thread first used at that site), interned.
+	// A thread's own control flow hardly depends on the schedule, so the label names "the same"
+	// object in different executions of a scenario; that is what the reduction profile is keyed on.
+	TL [MaxThreads]int32
 }
 
 // Name is the stable identity of the object.
@@ -209,6 +238,9 @@ func (o *ObjInfo) Name() string {
 type Deadlock struct {
 	Waiting []string // per blocked thread: "thread: op obj at site; holds …"
 	Sites   []string // the blocked operations' sites (sorted by thread id)
+	// Recursive lists "outer site -> inner site" for every thread that waits for a read lock on an
+	// object it already holds for reading (a writer announced itself in between).
+	Recursive [][2]string
 }
 
 // ThreadPanic is a panic that escaped a thread body.
@@ -249,6 +281,7 @@ type run struct {
 	devI    int
 	res     *Result
 	seqAt   map[int32]int
+	tseq    [MaxThreads]map[int32]int
 	done    chan struct{}
 	over    bool
 	keyH    uint64
@@ -273,6 +306,9 @@ func Boundary(label string) {
 func Run(opt Options, devs []Dev, specs []ThreadSpec) *Result {
 	if active != nil {
 		Fatal("nested run")
+	}
+	if len(specs) > MaxThreads {
+		Fatal("too many threads")
 	}
 	if opt.Horizon == 0 {
 		opt.Horizon = 2000000
@@ -368,6 +404,20 @@ func (r *run) point(k vsync.Kind, m *vsync.Meta, delta int64, label string) bool
 		}
 		o := &r.res.Objs[m.ID]
 		o.Threads |= 1 << uint(t.id)
+		if o.TL[t.id] == 0 {
+			if r.tseq[t.id] == nil {
+				r.tseq[t.id] = map[int32]int{}
+			}
+			k := tlKey{t.id, t.site, r.tseq[t.id][t.site]}
+			r.tseq[t.id][t.site]++
+			id, ok := tlIdx[k]
+			if !ok {
+				id = int32(len(tlNames))
+				tlNames = append(tlNames, k)
+				tlIdx[k] = id
+			}
+			o.TL[t.id] = id
+		}
 		if o.Sites != nil {
 			o.Sites[t.site] = struct{}{}
 		}
@@ -552,6 +602,7 @@ func (r *run) schedule(self *thread) {
 			p.Kind, p.Site, p.CurOps, p.Label = c.kind, c.site, int32(c.nops), c.label
 			if c.obj != nil {
 				p.Obj = c.obj.ID
+				p.TLabel = r.res.Objs[c.obj.ID].TL[c.id]
 			}
 		}
 		idx := len(r.res.Points)
@@ -638,6 +689,14 @@ func (r *run) declareDeadlock() {
 		hs := ""
 		for _, h := range t.held {
 			hs += fmt.Sprintf(" %s(%s taken at %s)", r.res.Objs[h.obj].Name(), h.mode, SiteName(h.site))
+		}
+		if t.kind == vsync.KRLockQueued && t.obj != nil {
+			for _, h := range t.held {
+				if h.obj == t.obj.ID && h.mode == vsync.KRLock {
+					d.Recursive = append(d.Recursive, [2]string{SiteName(h.site), SiteName(t.site)})
+					break
+				}
+			}
 		}
 		d.Waiting = append(d.Waiting, fmt.Sprintf("%s blocked in %s of %s at %s; holds:%s", t.name, t.kind, obj, SiteName(t.site), hs))
 		d.Sites = append(d.Sites, SiteName(t.site))
